@@ -66,12 +66,14 @@ type scen struct {
 	Plugin    attrSpec          `json:"plugin_attr"`
 	MinVer    attrSpec          `json:"minver_attr"`
 	OtherCrit []string          `json:"other_critical"`
+	OtherNon  []string          `json:"other_noncritical,omitempty"`
 	NonString bool              `json:"nonstring_critical"`
 	Auth      int               `json:"auth"`
 	Identity  bool              `json:"identity_ok"`
 	Expired   bool              `json:"expired"`
 	TsOK      bool              `json:"timestamp_ok"`
 	RevOK     bool              `json:"revocation_ok"`
+	RevMode   int               `json:"revocation_mode"` // 0 ok, 1 revoked, 2 unknown, 3 validator error
 	PM        int               `json:"pm"` // 0 nil, 1 not installed, 2 metadata error, 3 plugin
 	Version   string            `json:"plugin_version,omitempty"`
 	Caps      []string          `json:"caps,omitempty"` // TI, Rev, Other
@@ -88,7 +90,7 @@ type scen struct {
 type envKey struct {
 	format               string
 	plugin, minver       attrSpec
-	other                string
+	other, othernon      string
 	nonstring            bool
 	expired, chainExpird bool
 	integrity            bool
